@@ -85,6 +85,11 @@ class Ctx:
         analysis-broken, never a pass"""
         self.analysed[what] = n
         if n < minimum:
+            # sites that a violation found earlier made unreachable for this rule do not turn the violation into "analysis
+            # broken": the floor failure is kept and raised at the end only if nothing was reported
+            if self.violations:
+                self.deferred_floors = getattr(self, 'deferred_floors', []) + ['%s: %d < %d' % (what, n, minimum)]
+                return
             raise AnalysisBroken('%s: instance floor not met for %s: %d < %d' % (self.pid, what, n, minimum))
 
     def require(self, cond, msg):
